@@ -9,10 +9,10 @@ META = dict(
     level_text='bounded histories of the real HostConnection / HostConnectionPool code driven by real ResponseFutures: every interleaving of send / respond / client timeout / late response / defunct / replacement task / shutdown (and shutdown during a blocking connect, and shutdown at any lock acquire/release inside _replace) is a forked symbolic choice, each path decided by z3; accounting steps of both pool classes from symbolic counter states',
     level_note='task-level schedules plus pre-emption at the blocking connection_factory call; transport, timers, executor are harness fakes; request capacity is made small (2-3 streams) so that capacity limits are reached within the bound',
     technique='symbolic execution (sx proxies, LIA) of the real pool code over solver-enumerated event interleavings + z3 validity per path; inductive accounting steps from symbolic counter states',
-    bounds=dict(quick='<= 3 requests, histories of <= 7 events + drain, stream capacity 2..3, orphan threshold 1..2; borrow/return steps with in_flight, max_request_id in [0, 32767] symbolic; v1/v2 pool: 2 connections with 0..3 free ids each, <= 4 borrow/return/shutdown/task events, and the same with one shutdown() or return_connection() by another thread at any boundary of the pool or connection locks (v2-pool-race)',
+    bounds=dict(quick='<= 3 requests, histories of <= 7 events + drain, stream capacity 2..3, orphan threshold 1..2; borrow/return steps with in_flight, max_request_id in [0, 32767] symbolic; job replace-use-rejected: the session has a keyspace and the server may reject USE (InvalidRequest) on each of the first 3 replacement connections; v1/v2 pool: 2 connections with 0..3 free ids each, <= 4 borrow/return/shutdown/task events, and the same with one shutdown() or return_connection() by another thread at any boundary of the pool or connection locks (v2-pool-race)',
                 thorough='<= 3 requests, histories of <= 8 events + drain'),
     assumptions=['race jobs: a timer (client-side timeout, speculative execution) may fire on a thread other than the event loop\'s, so it can overlap the handling of a response - Connection.create_timer does not promise otherwise and the driver itself guards _on_timeout with the connection lock; with the bundled reactors timers run on the event-loop thread, for which these schedules are an over-approximation; two responses are never handled at the same time', 'each server answer arrives at most once per stream'],
-    stubs=['transport/timers/executor: harness kit', 'protocol codec: identity'],
+    stubs=['job replace-use-rejected: set_keyspace_blocking of the connections the pool opens follows the contract read from /repo (InvalidRequest is raised and leaves the connection open)', 'transport/timers/executor: harness kit', 'protocol codec: identity'],
     outside=['OS-thread pre-emption inside critical sections'],
 )
 
@@ -24,8 +24,8 @@ def encoded_functions():
             HostConnectionPool.borrow_connection, HostConnectionPool.return_connection, HostConnectionPool.shutdown]
 
 
-def h_history(V, steps=5, preempt=False, race=None):
-    return poolhist.run_history(V, 'C12', steps=steps, factory_preempt=preempt, race=race)
+def h_history(V, steps=5, preempt=False, race=None, use_fault=False):
+    return poolhist.run_history(V, 'C12', steps=steps, factory_preempt=preempt, race=race, use_fault=use_fault)
 
 
 def h_borrow_step(V):
@@ -157,6 +157,9 @@ def jobs(tier):
         # general pre-emption (thorough): any other-thread event at any lock acquire/release while no lock is held
         js.append(Job('any-race', 'h_history', dict(steps=4, race='any'),
                       dict(o, pin={'max_in_flight': 0, 'orphan_threshold': 0}, max_paths=400000)))
+    # the session has a keyspace and the server may reject USE on a replacement connection (the keyspace was dropped)
+    js.append(Job('replace-use-rejected', 'h_history', dict(steps=steps - 1, use_fault=True),
+                  dict(o, pin={'max_in_flight': 0, 'orphan_threshold': 0})))
     # one pre-emption by a thread calling shutdown() at a lock acquire/release inside HostConnection._replace
     js.append(Job('replace-shutdown-race', 'h_history', dict(steps=steps - 1, race='replace-shutdown'),
                   dict(o, pin={'max_in_flight': 0, 'orphan_threshold': 0})))
